@@ -330,6 +330,12 @@ impl Prop for C19 {
             ["std", h] => {
                 let Some(raw) = arr::<4>(h) else { return "bad-op".into() };
                 let c = StandardCommunity::from_raw(raw);
+                // (tie coverage) the other ways in and out of the same four octets: From<[u8; 4]>, From<u32>,
+                // from_wellknown / Wellknown::into_standard
+                if StandardCommunity::from(raw) != c || StandardCommunity::from(c.to_u32()) != c { return "From<[u8;4]> / From<u32> differ from from_raw".into(); }
+                if let Some(w) = c.to_wellknown() {
+                    if StandardCommunity::from_wellknown(w) != c || w.into_standard() != c { return "from_wellknown / into_standard differ from from_raw".into(); }
+                }
                 let towk = match c.to_wellknown() { Some(w) => dbg(&w), None => "none".into() };
                 format!("u32={} wk={} res={} priv={} asn={} tag={} towk={} {}", c.to_u32(), b01(c.is_wellknown()), b01(c.is_reserved()),
                     b01(c.is_private()), opt(c.asn().map(|a| a.into_u32())), opt(c.tag().map(|t| t.value())), towk,
@@ -338,6 +344,8 @@ impl Prop for C19 {
             ["ext", h] => {
                 let Some(raw) = arr::<8>(h) else { return "bad-op".into() };
                 let c = ExtendedCommunity::from_raw(raw);
+                #[allow(deprecated)]
+                if ExtendedCommunity::from(raw) != c || c.raw() != raw { return "From<[u8;8]> / raw() differ from from_raw / to_raw".into(); }
                 let (t, s) = c.types();
                 format!("type={} sub={} trans={} as2={} as4={} ip4={} an2={} an4={} {}", dbg(&t), dbg(&s), b01(c.is_transitive()),
                     opt(c.as2().map(|a| a.to_u16())), opt(c.as4().map(|a| a.into_u32())),
@@ -347,12 +355,16 @@ impl Prop for C19 {
             ["lrg", h] => {
                 let Some(raw) = arr::<12>(h) else { return "bad-op".into() };
                 let c = LargeCommunity::from_raw(raw);
+                #[allow(deprecated)]
+                if LargeCommunity::from(raw) != c || c.raw() != raw || c.asn().into_u32() != c.global() { return "From<[u8;12]> / raw() / asn() differ from from_raw / to_raw / global".into(); }
                 format!("g={} l1={} l2={} {}", c.global(), c.local1(), c.local2(),
                     triple(move || c.to_string(), |t| show_raw(LargeCommunity::from_str(t).map(|c| c.to_raw()))))
             }
             ["v6", h] => {
                 let Some(raw) = arr::<20>(h) else { return "bad-op".into() };
                 let c = Ipv6ExtendedCommunity::from_raw(raw);
+                #[allow(deprecated)]
+                if Ipv6ExtendedCommunity::from(raw) != c || c.raw() != raw || c.local_admin() != c.an2() { return "From<[u8;20]> / raw() / local_admin() differ from from_raw / to_raw / an2".into(); }
                 let text = c.to_string();
                 // the rt:<ipv6>:<an2> form is not modelled (and does not parse back: the code says so itself)
                 let tt = if text.starts_with("rt:") { "text=rt6 back=- eback=-".to_string() } else {
